@@ -57,12 +57,19 @@ void gen_plan() {
     int big = sim::rnd(4) == 0;
     n_sleepers = big ? 8 + sim::rnd(33) : 1 + sim::rnd(8);
     n_pintr = sim::rnd(3); n_ointr = sim::rnd(3) == 0 ? 1 + sim::rnd(2) : 0;
+    bool with_shutdown = sim::rnd(5) < 2;
+    bool sweeper = with_shutdown && sim::rnd(2);        // one more interrupter thread that shuts the sleepers down one after the other
+    if (sweeper) n_pintr++;
     int nth = n_sleepers + n_pintr;
     scripts.resize(nth); role.resize(nth); pending.resize(nth); shut.assign(nth, 0); shut_ret_us.assign(nth + 2, 0); sst.resize(nth);
-    bool with_shutdown = sim::rnd(3) == 0;
     cross_shutdown = hx::param("cross_shutdown", 1) && sim::rnd(2);
     for (int t = 0; t < nth; t++) {
         role[t] = t < n_sleepers ? 0 : 1;
+        if (sweeper && t == nth - 1) {
+            int k = std::min(n_sleepers, 12);
+            for (int i = 0; i < k; i++) { Op o; o.idx = n_ops++; o.k = OP_SHUTDOWN; o.target = (i * 7 + 3) % n_sleepers; o.pause_us = D_US[sim::rnd(10)]; scripts[t].push_back(o); }
+            continue;
+        }
         int n = big ? 1 + sim::rnd(4) : 1 + sim::rnd(10);
         for (int i = 0; i < n; i++) {
             Op o; o.idx = n_ops++;
